@@ -26,11 +26,7 @@
 (* after it happened and a release before it happens, so a run of correct  *)
 (* code is always explainable; see DESIGN.md section 9.                    *)
 (*                                                                         *)
-(* Hidden steps are explored by TLC, restricted (soundly AND completely)   *)
-(* to those that can matter for the next line: a step of peer q commutes   *)
-(* with every line that concerns neither q nor q's subnet, releases of     *)
-(* RPCs of one peer that are in the same stage are interchangeable, and    *)
-(* before StopReturn / Quiesce only the end state matters.                 *)
+(* Hidden steps are explored by TLC, demand driven (rules N1-N3 below).    *)
 (***************************************************************************)
 EXTENDS Limits, Json, IOUtils, Sequences
 
@@ -48,41 +44,89 @@ More == l <= N
 Step(op) == More /\ Ev.op = op /\ l' = l + 1
 
 PeerIdx == [p1 |-> 1, p2 |-> 2, p3 |-> 3, p4 |-> 4, p5 |-> 5, p6 |-> 6, p7 |-> 7, p8 |-> 8]
-PerPeerOps == {"Arrive", "Enter", "Exit", "Answered", "Failed", "Disconnect"}
-GlobalOps == {"StopReturn", "Quiesce"}
+ConnOps == {"AllowCheck", "Refused", "Rejected", "Handshake", "Hangup"}
 
 \* ---------------------------------------------------------------- which hidden steps may run before line l
+(* Hidden steps are DEMAND DRIVEN.  A hidden step that commutes with the next line can be postponed, so:       *)
+(*  N1  if the next line can be taken now, no hidden step is taken before it (lines whose RESULT is not logged  *)
+(*      -- the connection family -- are the exception);                                                        *)
+(*  N2  otherwise only steps in the dependency cone of that line: for Enter(p,r)/Failed(p,r) the loop of p up   *)
+(*      to r, a slot release when that loop is blocked on the semaphore or stands at a full subnet counter,     *)
+(*      acquisitions by the other peers of the subnet when a drop needs the counter to be full, and Close's     *)
+(*      statements; for StopReturn what brings the WaitGroup to zero; for Quiesce everything that is left.      *)
+(*  N3  steps that commute with each other are taken in one canonical order (peers by index; RPCs of one peer   *)
+(*      in the same post-handler stage by number).                                                              *)
 SameSubnet(q, p) == SubnetOn /\ SubnetOf(q) = SubnetOf(p)
+SubFull(p) == SubnetOn /\ sub[SubnetOf(p)] >= lim.maxSubnet
+AtSubnetCheck(p) == \E x \in RpcIds : st[p][x] = "gotpeer"
+Blocked(p) == loopOn[p] /\ InLoop(p) = {} /\ Arrived(p) # {} /\ sem[p] >= lim.maxInflight
+NeedsLoop(p, r) == st[p][r] \in {"arrived", "gotpeer", "gotsub"}
+First(q, r) == \A r2 \in RpcIds : r2 < r => st[q][r2] # st[q][r]
+
+\* (lclosed: Run's teardown may already have closed this peer's transport)
+FailedNow(p, r) == out[p][r] \in FailOutcomes \/ lclosed \/ gone[p] \/ ~loopOn[p]
+QuietNow == Quiescent /\ (\A s \in Subnets : sub[s] = 0) /\ (\A p \in Peers : sem[p] = 0)
+LineEnabled ==
+    CASE Ev.op = "Enter"      -> st[Ev.p][Ev.r] = "spawned" /\ stop = "no"
+      [] Ev.op = "Failed"     -> FailedNow(Ev.p, Ev.r)
+      [] Ev.op = "StopReturn" -> G_StopReturn
+      [] Ev.op = "Quiesce"    -> QuietNow
+      [] Ev.op = "ThAdd"      -> (Ev.ok <=> stop = "no")
+      [] Ev.op \in ConnOps    -> FALSE
+      [] OTHER                -> TRUE
+
+\* the steps of peer p's loop and what may have to happen for them, towards RPC r being spawned or dropped
+TowardsRpc(p, r) ==
+    /\ NeedsLoop(p, r)
+    /\ \/ AcquirePeer(p) \/ AcquireSubnet(p) \/ Spawn(p)
+       \/ (Blocked(p) /\ \E x \in RpcIds : First(p, x) /\ (HandleDone(p, x) \/ ReleaseSubnet(p, x) \/ ReleasePeer(p, x)))
+       \/ (AtSubnetCheck(p) /\ SubFull(p) /\
+             \E q \in Peers, x \in RpcIds : SameSubnet(q, p) /\ First(q, x) /\ (HandleDone(q, x) \/ ReleaseSubnet(q, x)))
+       \/ (AtSubnetCheck(p) /\ SubnetOn /\ ~SubFull(p) /\
+             \E q \in Peers \ {p} : SameSubnet(q, p) /\
+                 \/ AcquirePeer(q) \/ AcquireSubnet(q) \/ Spawn(q)
+                 \/ (Blocked(q) /\ \E x \in RpcIds : First(q, x) /\ (HandleDone(q, x) \/ ReleaseSubnet(q, x) \/ ReleasePeer(q, x))))
+
+\* what the WaitGroup waits for: handlers leaving, busy loops finishing their RPC, loops returning
+TgEnabled(q) == G_AcquireSubnet(q) \/ G_Spawn(q) \/ G_LoopExit(q) \/ \E x \in RpcIds : G_HandleDone(q, x)
+TowardsStopReturn ==
+    \E q \in Peers :
+        /\ \A q2 \in Peers : PeerIdx[q2] < PeerIdx[q] => ~TgEnabled(q2)
+        /\ \/ AcquireSubnet(q) \/ Spawn(q) \/ LoopExit(q)
+           \/ \E x \in RpcIds : First(q, x) /\ HandleDone(q, x)
+
 HiddenEnabledPeer(q) ==
     \/ G_AcquirePeer(q) \/ G_AcquireSubnet(q) \/ G_Spawn(q) \/ G_LoopExit(q)
     \/ \E r \in RpcIds : (G_TgAdd(q, r) /\ stop # "no") \/ G_HandleDone(q, r) \/ G_ReleaseSubnet(q, r)
                           \/ G_ReleasePeer(q, r) \/ G_Abandon(q, r)
-Relevant(q) ==
-    /\ More
-    /\ \/ Ev.op \in PerPeerOps /\ (q = Ev.p \/ SameSubnet(q, Ev.p))
-       \/ Ev.op \in GlobalOps /\ \A q2 \in Peers : PeerIdx[q2] < PeerIdx[q] => ~HiddenEnabledPeer(q2)
-\* RPCs of one peer in the same post-handler stage are interchangeable: the smallest goes first
-First(q, r) == \A r2 \in RpcIds : r2 < r => st[q][r2] # st[q][r]
+TowardsQuiet ==
+    \E q \in Peers :
+        /\ \A q2 \in Peers : PeerIdx[q2] < PeerIdx[q] => ~HiddenEnabledPeer(q2)
+        /\ \/ AcquirePeer(q) \/ AcquireSubnet(q) \/ Spawn(q) \/ LoopExit(q)
+           \/ \E r \in RpcIds :
+                \/ (stop # "no" /\ TgAdd(q, r)) \/ Abandon(q, r)
+                \/ (First(q, r) /\ (HandleDone(q, r) \/ ReleaseSubnet(q, r) \/ ReleasePeer(q, r)))
 
 HiddenRpc ==
+    /\ More /\ ~LineEnabled
     /\ UNCHANGED <<l, stopCalled, hung>>
-    /\ \E q \in Peers :
-         /\ Relevant(q)
-         /\ \/ AcquirePeer(q) \/ AcquireSubnet(q) \/ Spawn(q) \/ LoopExit(q)
-            \/ \E r \in RpcIds :
-                 \/ (stop # "no" /\ TgAdd(q, r))
-                 \/ (First(q, r) /\ (HandleDone(q, r) \/ ReleaseSubnet(q, r) \/ ReleasePeer(q, r)))
-                 \/ Abandon(q, r)
+    /\ \/ Ev.op = "Enter" /\ stop = "no" /\ TowardsRpc(Ev.p, Ev.r)
+       \/ Ev.op = "Failed" /\ \/ TowardsRpc(Ev.p, Ev.r)
+                              \/ (stop # "no" /\ st[Ev.p][Ev.r] = "spawned" /\ TgAdd(Ev.p, Ev.r))
+                              \/ LoopExit(Ev.p)
+       \/ Ev.op = "StopReturn" /\ TowardsStopReturn
+       \/ Ev.op = "Quiesce" /\ TowardsQuiet
 
 \* Close's two statements, Run's teardown, Stop's wait: once Close has been called
 HiddenStop ==
-    /\ More /\ stopCalled
+    /\ More /\ stopCalled /\ ~LineEnabled
+    /\ Ev.op \in {"Failed", "StopReturn", "Quiesce", "ThAdd"} \cup ConnOps
     /\ UNCHANGED <<l, stopCalled, hung>>
     /\ CloseListener \/ StopBegin \/ StopWait \/ ClosePeers \/ RunExit
 
 \* connection lifecycle: the insert, runPeer's start and the removal are not visible
 HiddenConn ==
-    /\ More
+    /\ More /\ (Ev.op \in ConnOps \/ (Ev.op = "StopReturn" /\ ~LineEnabled))
     /\ UNCHANGED <<l, stopCalled, hung>>
     /\ \E c \in Conns :
          \/ AddPeer(c) \/ RunPeer(c)
@@ -119,13 +163,12 @@ TAnswered == Step("Answered") /\ out[Ev.p][Ev.r] = "answered" /\ Skip /\ UNCHANG
 \* the client saw the stream die: the RPC was dropped/refused/lost, or the whole transport is gone
 TFailed ==
     /\ Step("Failed")
-    /\ out[Ev.p][Ev.r] \in FailOutcomes \/ peersClosed \/ gone[Ev.p] \/ ~loopOn[Ev.p]
+    /\ FailedNow(Ev.p, Ev.r)
     /\ Skip /\ UNCHANGED <<stopCalled, hung>>
 TDisconnect == Step("Disconnect") /\ Disconnect(Ev.p) /\ UNCHANGED <<stopCalled, hung>>
 TQuiesce ==
     /\ Step("Quiesce")
-    /\ Quiescent
-    /\ \A s \in Subnets : sub[s] = 0
+    /\ QuietNow
     /\ Ev.n = 0            \* the real counters, read through the hook
     /\ Skip /\ UNCHANGED <<stopCalled, hung>>
 
